@@ -289,6 +289,51 @@ def component_grid(tier, out, stats):
                 if a.bus.signature != wishbone.Signature(addr_width=aw, data_width=dw, granularity=gran, features=feats):
                     out.append(viol(f"wishbone.Arbiter({aw},{dw},{gran},{feats}).bus has signature {a.bus.signature!r}", "connect"))
             attempt("wishbone.Decoder/Arbiter", f)
+    # the same ports when every optional constructor parameter is given, and after the component has been populated
+    # (add() calls must not change what the component's own port looks like)
+    for dw, gran, aw, feats in ((16, 8, 3, ()), (32, 8, 2, ("err", "rty")), (8, 8, 3, FEATS), (32, 16, 3, ("stall", "lock", "err"))):
+        def f(dw=dw, gran=gran, aw=aw, feats=feats):
+            want = wishbone.Signature(addr_width=aw, data_width=dw, granularity=gran, features=feats)
+            for name in ("dec", ("top", "dec")):
+                try:
+                    d = wishbone.Decoder(addr_width=aw, data_width=dw, granularity=gran, features=feats, alignment=1, name=name)
+                except TypeError:
+                    if isinstance(name, tuple):
+                        continue          # a tuple name may be refused
+                    raise
+                for k in range(2):
+                    sub = wishbone.Interface(addr_width=1, data_width=dw, granularity=gran, features=feats, path=(f"s{k}",))
+                    sub.memory_map = MemoryMap(addr_width=max(1, 1 + ceil_log2(dw // gran)), data_width=gran)
+                    d.add(sub)
+                connect_ok(wishbone.Interface(addr_width=aw, data_width=dw, granularity=gran, features=feats), d.bus,
+                           f"wishbone.Decoder({aw},{dw},{gran},{feats}, alignment=1, name={name!r}) after two add() calls", out, stats)
+            a = wishbone.Arbiter(addr_width=aw, data_width=dw, granularity=gran, features=feats)
+            for k in range(3):
+                a.add(wishbone.Interface(addr_width=aw, data_width=dw, granularity=gran, features=feats, path=(f"i{k}",)))
+            tgt = wishbone.Decoder(addr_width=aw, data_width=dw, granularity=gran, features=feats)
+            connect_ok(a.bus, tgt.bus, f"wishbone.Arbiter({aw},{dw},{gran},{feats}).bus after three add() calls -> Decoder.bus", out, stats)
+            if a.bus.signature != want or not (want == a.bus.signature) or a.bus.signature.create().signature != want:
+                out.append(viol(f"wishbone.Arbiter({aw},{dw},{gran},{feats}).bus after add(): signature {a.bus.signature!r} is not "
+                                f"the one its constructor parameters define", "connect"))
+        attempt("populated wishbone.Decoder/Arbiter", f)
+    for aw, dw in ((4, 8), (5, 16)):
+        def f(aw=aw, dw=dw):
+            d = csr.Decoder(addr_width=aw, data_width=dw, alignment=1)
+            for k in range(2):
+                sub = csr.Interface(addr_width=2, data_width=dw, path=(f"s{k}",))
+                sub.memory_map = MemoryMap(addr_width=2, data_width=dw)
+                d.add(sub, name=f"w{k}")
+            connect_ok(csr.Interface(addr_width=aw, data_width=dw), d.bus, f"csr.Decoder({aw},{dw}, alignment=1).bus after two add() calls", out, stats)
+            em = event.EventMap()
+            em.add(event.Source(path=("s",)))
+            mon = EventMonitor(em, trigger="rise", data_width=dw, alignment=1, name="mon")
+            connect_ok(csr.Interface(addr_width=mon.bus.memory_map.addr_width, data_width=dw), mon.bus,
+                       f"csr.EventMonitor(trigger='rise', dw={dw}, alignment=1, name='mon').bus", out, stats)
+            if dw in (8, 16):
+                wb = WishboneCSRBridge(d.bus, data_width=dw * 2, name="br")
+                connect_ok(wishbone.Interface(addr_width=aw - 1, data_width=dw * 2, granularity=dw), wb.wb_bus,
+                           f"WishboneCSRBridge(csr {aw}x{dw}, data_width={dw * 2}, name='br').wb_bus", out, stats)
+        attempt("populated csr.Decoder / named monitor / named bridge", f)
     # default granularity of decoder/arbiter
     def f():
         d = wishbone.Decoder(addr_width=0, data_width=16)
